@@ -163,6 +163,8 @@ def make_fn(spec, sempler_noise):
 
 def is_random_noise(spec):
     """True if the noise spec has positive variance (for the non-degeneracy oracle)."""
+    if spec[0] == "held":
+        return is_random_noise(spec[2])
     n = spec[0]
     if n == "noise.normal":
         return spec[2] > 0
